@@ -23,7 +23,8 @@ CLAIMS = {
              "Thirteen statement/expression-level rewrites (merge_writes, split_write, fold_into_reduce, inline_assign, "
              "lift_reduce_constant, commute/reassociate/rewrite_expr, bind_expr, specialize, delete_pass, "
              "eliminate_dead_code, insert_pass) are proved against a store semantics over z3 reals/arrays: for every "
-             "initial store the rewritten block leaves the same final contents.",
+             "initial store the rewritten block leaves the same final contents. The side condition of buffer folding "
+             "(CheckFoldBuffer.do_s) is proved to account for every access of the folded buffer a statement makes.",
         design_ref="3/C01",
         note="Not whole-program equivalence: effect extraction, Alpha_Rename/SubstArgs, the pattern matcher, every "
              "primitive not listed (stage_mem, bind_expr, inline, autolift, specialize, ...), compositions in the "
@@ -102,7 +103,8 @@ CLAIMS = {
              "every depth, all gaps, all contiguous blocks) is forwarded through the primitive's composed forwarding "
              "function and proved to be invalid or to denote the same code in the result (never a different "
              "statement, never dangling; carried-over statements are not reported invalid; documented images of the "
-             "focus; foreign cursors rejected), which also fixes the order of every _compose.",
+             "focus; foreign cursors rejected), which also fixes the order of every _compose. A block that a rewrite "
+             "emptied is proved to be reported as InvalidCursorError by Procedure.forward, never returned.",
         design_ref="3/C06",
         note="Tree shapes are bounded (edited block length 0-4, blocks of 1-3 statements, nesting depth <= 2) with "
              "symbolic positions and literals; single-edit primitives returning one elementary forwarding function "
